@@ -1867,13 +1867,14 @@ impl LineBuf {
 				None
 			}
 			Direction::Backward => {
-				let mut bkwd_indices = (0..idx).rev();
+				// Start on the delimiter itself, like the forward search does, so that it is counted
+				let mut bkwd_indices = (0..=idx).rev();
 				while let Some(idx) = bkwd_indices.next() {
 					let gr = self.read_grapheme_at(idx)?;
 					match gr {
 						_ if gr == new_delim => depth += 1,
 						_ if gr == target_delim => {
-							depth -= 1;
+							depth = depth.saturating_sub(1);
 							if depth == 0 {
 								return Some(idx)
 							}
